@@ -353,6 +353,42 @@ def gen_request_cases(tier: str, rnd: random.Random) -> list[dict]:
     return cases
 
 
+def inverter_requests(job) -> list[dict]:
+    """What an inverter object constructed with an explicit communication address puts on the wire (read_device_info and
+    read_runtime_data on a simulated inverter): every Modbus request must be the canonical frame for THAT address."""
+    fam, port, comm = job
+    from . import frames as F
+    from .checks_decode import device_regs, es_info
+    from .checks_inverter import serial_for
+    from .inv_driver import run_program
+    serial = serial_for({"ET": "ETU", "DT": "DTU"}.get(fam, "ESU")) if fam != "ES" else "95048ESU000W0000"
+    sim = {"regs": device_regs(fam, serial, 10000)}
+    if fam == "ES":
+        sim["aa55"] = {"info": list(es_info(serial))}
+    spec = {"family": fam, "port": port, "sim": sim, "retries": 0}
+    if comm:
+        spec["comm_addr"] = comm
+    tr = run_program({"inv": [spec], "calls": [{"api": "read_device_info"}, {"api": "read_runtime_data"},
+                                                {"api": "read_setting", "args": ["grid_export_limit"]}]})
+    want = comm if comm else (0x7F if fam == "DT" else 0xF7)
+    fr = "tcp" if port == 502 else "rtu"
+    out = []
+    for ev in tr["ev"]:
+        if ev["e"] != "SEND":
+            continue
+        b = bytes(ev["data"])
+        if b[:4] == b"\xaa\x55\xc0\x7f":
+            continue
+        p = F.parse_request(fr, b)
+        if p is None:
+            out.append({"kind": "request", "cmd": C(fr, "read", want, 0, 1), "data": b, "exc": "", "mut": f"inverter:{fam}:{comm:#x}"})
+            continue
+        op = {3: "read", 6: "write", 16: "wmulti"}.get(p["fn"], "read")
+        cmd = C(fr, op, want, p["reg"], p["n"], payload=bytes(p.get("payload", b"")))
+        out.append({"kind": "request", "cmd": cmd, "data": b, "exc": "", "mut": f"inverter:{fam}:{comm:#x}"})
+    return out
+
+
 def gen_txhist(tier: str) -> list[dict]:
     P, _, _ = _lib()
     objs = [P.ModbusTcpReadCommand(0xF7, 35100, 2), P.ModbusTcpWriteCommand(0xF7, 47000, 1),
@@ -447,6 +483,10 @@ def check(prop: str, tier: str, seed: int) -> int:
                            "non-trivial = the frame differs from every other case and is not the plain seed answer; distinct = distinct (command, bytes)")
     else:
         cases = gen_request_cases(tier, rnd) + gen_txhist(tier)
+        jobs = [(fam, port, comm) for fam, port in (("ET", 8899), ("ET", 502), ("DT", 8899), ("DT", 502))
+                for comm in ((0, 0x11, 0x7F, 0xF7, 0xFE) if tier == "quick" else (0, 1, 0x11, 0x7F, 0x80, 0xF7, 0xFE, 0xFF))]
+        for lst in engine.parallel_map("harness.checks_wire", "inverter_requests", jobs, procs=16, chunk=2):
+            cases += lst
         own = ("C03.",)
         run.cov["rule"] = ("argument grid: all comm addresses 0..255, all counts 1..125, all even payload lengths 2..246, boundary and "
                            "random registers/values (negative included), AA55 read/write/write-multi(8 bytes); every command built through "
